@@ -10,29 +10,58 @@ Proof.
   cbn [run_history compile]. destruct (IH g) as [H1 H2].
   destruct (run_history g r) as [g2 rest]. cbn [fst snd] in *. subst. split; reflexivity.
 Qed.
-(* a name that is in the table -- every built-in is -- can neither be replaced nor registered again *)
-Theorem existing_name_refused g t tr n ok os : mem n t = true -> apply_opts g t tr (OAddFn n ok :: os) = inl 2%N.
-Proof. intro H. cbn. rewrite H. reflexivity. Qed.
-Lemma apply_opts_grows g : forall os t tr t', apply_opts g t tr os = inr t' -> forall n, mem n t = true -> mem n t' = true.
+Lemma failed_stays_failed g : forall os t tr, fst (apply_all g t tr true os) = true.
 Proof.
-  induction os as [|o os IH]; intros t tr t' H n Hn.
-  - cbn in H. inversion H; subst. exact Hn.
-  - destruct o as [m ok| | |]; cbn [apply_opts] in H.
-    + destruct (mem m t); [discriminate|]. destruct ok; [|discriminate]. cbn [negb] in H.
-      apply (IH _ _ _ H). unfold mem in *. cbn [existsb]. rewrite Hn. apply orb_true_r.
-    + apply (IH _ _ _ H). unfold mem in *. rewrite existsb_app, Hn. reflexivity.
-    + apply (IH _ _ _ H). exact Hn.
-    + destruct tr; [discriminate|]. apply (IH _ _ _ H). exact Hn.
+  induction os as [|o os IH]; intros t tr; [reflexivity|].
+  destruct o as [n ok| | |]; cbn [apply_all]; try apply IH.
+  - destruct (mem n t || negb ok); apply IH.
+  - destruct tr; apply IH.
+Qed.
+(* a name that is in the table -- every built-in is -- can neither be replaced nor registered again *)
+Theorem existing_name_refused g t tr n ok os : mem n t = true -> apply_opts g t tr (OAddFn n ok :: os) = inl 1%N.
+Proof.
+  intro H. unfold apply_opts. cbn [apply_all]. rewrite H. cbn [orb].
+  pose proof (failed_stays_failed g os t tr) as Hf. destruct (apply_all g t tr true os) as [f t']. cbn in Hf. subst f. reflexivity.
+Qed.
+Lemma apply_all_grows g : forall os t tr f n, mem n t = true -> mem n (snd (apply_all g t tr f os)) = true.
+Proof.
+  induction os as [|o os IH]; intros t tr f n Hn; [exact Hn|].
+  destruct o as [m ok| | |]; cbn [apply_all].
+  - destruct (mem m t || negb ok); [apply IH; exact Hn|]. apply IH. unfold mem in *. cbn [existsb]. rewrite Hn. apply orb_true_r.
+  - apply IH. unfold mem in *. rewrite existsb_app, Hn. reflexivity.
+  - apply IH. exact Hn.
+  - destruct tr; apply IH; exact Hn.
 Qed.
 Theorem builtins_always_visible g os t : snd (compile g os) = inr t -> forall n, mem n (g_base g) = true -> mem n t = true.
-Proof. cbn. intros H n Hn. exact (apply_opts_grows g os _ _ _ H n Hn). Qed.
+Proof.
+  cbn. unfold apply_opts. intros H n Hn. pose proof (apply_all_grows g os (g_base g) false false n Hn) as Hg.
+  destruct (apply_all g (g_base g) false false os) as [f t']. destruct f; [discriminate|]. inversion H; subst. exact Hg.
+Qed.
 (* a function registered through an option is visible in that compile ... *)
 Theorem custom_function_visible g n : mem n (g_base g) = false ->
   exists t, snd (compile g [OAddFn n true]) = inr t /\ mem n t = true.
 Proof.
-  intro Hb. cbn. rewrite Hb. cbn. eexists. split; [reflexivity|]. unfold mem. cbn. rewrite N.eqb_refl. reflexivity.
+  intro Hb. cbn. unfold apply_opts. cbn [apply_all]. rewrite Hb. cbn. eexists. split; [reflexivity|].
+  unfold mem. cbn. rewrite N.eqb_refl. reflexivity.
 Qed.
 (* ... and in no other: a later compile without that option does not see it (whatever came before) *)
+Lemma apply_all_no_new_name g n : mem n (g_exper g) = false -> forall os t tr f,
+  (forall m ok, In (OAddFn m ok) os -> m <> n) -> mem n t = false -> mem n (snd (apply_all g t tr f os)) = false.
+Proof.
+  intro He. induction os as [|o os IH]; intros t tr f Hos H0; [exact H0|].
+  assert (Hos' : forall m ok, In (OAddFn m ok) os -> m <> n) by (intros m ok Hin; exact (Hos m ok (or_intror Hin))).
+  destruct o as [m ok| | |]; cbn [apply_all].
+  - destruct (mem m t || negb ok); [apply IH; assumption|]. apply IH; [exact Hos'|].
+    unfold mem in *. cbn [existsb]. rewrite H0, orb_false_r. apply N.eqb_neq. intro E. subst m.
+    exact (Hos n ok (or_introl eq_refl) eq_refl).
+  - apply IH; [exact Hos'|]. unfold mem in *. rewrite existsb_app, H0. cbn [orb].
+    destruct (existsb (N.eqb n) (filter (fun n0 => negb (existsb (N.eqb n0) t)) (g_exper g))) eqn:E; [|reflexivity].
+    apply existsb_exists in E as [x [Hx Hxn]]. apply filter_In in Hx as [Hx _]. apply N.eqb_eq in Hxn. subst x.
+    assert (existsb (N.eqb n) (g_exper g) = true) by (apply existsb_exists; exists n; split; [exact Hx|apply N.eqb_refl]).
+    congruence.
+  - apply IH; assumption.
+  - destruct tr; apply IH; assumption.
+Qed.
 Theorem custom_function_not_visible_later g n h os t :
   mem n (g_base g) = false -> mem n (g_exper g) = false -> (forall m ok, In (OAddFn m ok) os -> m <> n) ->
   nth_error (snd (run_history g (h ++ [os]))) (List.length h) = Some (inr t) -> mem n t = false.
@@ -40,24 +69,8 @@ Proof.
   intros Hb He Hos Hn. destruct (history_isolated (h ++ [os]) g) as [_ H2]. rewrite H2 in Hn.
   rewrite map_app in Hn. rewrite nth_error_app2 in Hn by (rewrite map_length; lia).
   rewrite map_length, Nat.sub_diag in Hn. cbn in Hn. inversion Hn as [H]. clear Hn H2.
-  assert (Hgen : forall os t0 tr t', (forall m ok, In (OAddFn m ok) os -> m <> n) -> mem n t0 = false ->
-            apply_opts g t0 tr os = inr t' -> mem n t' = false).
-  { clear - He. induction os as [|o os IH]; intros t0 tr t' Hos H0 H.
-    - cbn in H. inversion H; subst. exact H0.
-    - destruct o as [m ok| | |]; cbn [apply_opts] in H.
-      + destruct (mem m t0); [discriminate|]. destruct ok; [|discriminate]. cbn [negb] in H.
-        apply (IH _ _ _ (fun m' ok' Hin => Hos m' ok' (or_intror Hin))) in H; [exact H|].
-        unfold mem in *. cbn [existsb]. rewrite H0, orb_false_r. apply N.eqb_neq. intro E. subst m.
-        exact (Hos n true (or_introl eq_refl) eq_refl).
-      + apply (IH _ _ _ (fun m' ok' Hin => Hos m' ok' (or_intror Hin))) in H; [exact H|].
-        unfold mem in *. rewrite existsb_app, H0. cbn [orb].
-        destruct (existsb (N.eqb n) (filter (fun n0 => negb (existsb (N.eqb n0) t0)) (g_exper g))) eqn:E; [|reflexivity].
-        apply existsb_exists in E as [x [Hx Hxn]]. apply filter_In in Hx as [Hx _]. apply N.eqb_eq in Hxn. subst x.
-        assert (existsb (N.eqb n) (g_exper g) = true) by (apply existsb_exists; exists n; split; [exact Hx|apply N.eqb_refl]).
-        unfold mem in He. congruence.
-      + apply (IH _ _ _ (fun m' ok' Hin => Hos m' ok' (or_intror Hin))) in H; assumption.
-      + destruct tr; [discriminate|]. apply (IH _ _ _ (fun m' ok' Hin => Hos m' ok' (or_intror Hin))) in H; assumption. }
-  exact (Hgen os _ _ _ Hos Hb H).
+  unfold apply_opts in H. pose proof (apply_all_no_new_name g n He os (g_base g) false false Hos Hb) as Hg.
+  destruct (apply_all g (g_base g) false false os) as [f t']. destruct f; [discriminate|]. inversion H; subst. exact Hg.
 Qed.
 (* the shared-table alternative is not isolated: a registration leaks into the next compile *)
 Lemma shared_table_leaks : exists g shared n,
